@@ -87,6 +87,7 @@ FinalWhy(cfg, init, total, ps, last, raised, body_raised) ==
 
 (* an immediate retry of a failed save must succeed unless the configuration itself refuses *)
 RetryMustSucceed(cfg, init, last, ps) ==
+     /\ ~cfg.part_elsewhere                    \* (a part file on another file system can never be renamed into place)
      /\ ~(~cfg.overwrite /\ last.dest.st # "absent")
      /\ ~(last.part.st = "stale" /\ ~cfg.overwrite_part)
      /\ (cfg.rm_part_on_exc \/ cfg.overwrite_part)
